@@ -256,10 +256,13 @@ func init() {
 			if tier == "thorough" {
 				u := shardUnits(DFSArg{Kind: "eventlog", Writers: 2, Depth: 9, Alpha: "one", SD: 3}, 64)
 				u = append(u, shardUnits(DFSArg{Kind: "eventlog", Writers: 3, Depth: 7, Alpha: "one", SD: 3}, 96)...)
+				u = append(u, shardUnits(DFSArg{Kind: "eventlog", Writers: 2, Depth: 6, Alpha: "one", SnapLive: true}, 16)...)
 				return u
 			}
 			u := shardUnits(DFSArg{Kind: "eventlog", Writers: 2, Depth: 7, Alpha: "one", SD: 3}, 16)
 			u = append(u, shardUnits(DFSArg{Kind: "eventlog", Writers: 3, Depth: 5, Alpha: "one", SD: 3}, 16)...)
+			// merging through the snapshot route: a snapshot saved earlier is loaded on the running store
+			u = append(u, shardUnits(DFSArg{Kind: "eventlog", Writers: 2, Depth: 5, Alpha: "one", SnapLive: true}, 8)...)
 			return u
 		},
 		Budget: func(tier string) float64 {
